@@ -172,6 +172,8 @@ def run_check(prop, tier, seed, jobs):
         if len(replay_paths) >= 12:
             break
         path = write_replay(prop, v, tier, seed)
+        if path in replay_paths:
+            continue
         replay_paths.append(path)
         print(f"VIOLATION property={prop} replay={path}")
         print(f"  rule={v['rule']} mechanism={v['mechanism']}")
